@@ -83,8 +83,10 @@ class Val:
             return False
         if self.hk:
             return False
-        return bool(self.types - HASHABLE_TAGS)
+        return bool(self.types - EXACT_HASHABLE_TAGS)
 
+
+EXACT_HASHABLE_TAGS = {"none", "bool"}  # subclasses of str / int / float / tuple ... may set __hash__ = None
 
 T = Val("T")
 TOP = Val("I", TAGS)
@@ -578,7 +580,9 @@ class _Run:
     def ev_JoinedStr(self, e, env):
         for v in e.values:
             if isinstance(v, ast.FormattedValue):
-                self.ev(v.value, env)
+                fv = self.ev(v.value, env)
+                if fv.kind == "I" and not fv.own and fv.types & {"int"}:
+                    self.hz(v, {"ValueError"}, f"`{short(v.value, 40)}` formatted into a string: decimal conversion of a huge int from the input raises ValueError (Python >= 3.11)")
         return T
 
     def ev_Lambda(self, e, env):
@@ -711,6 +715,8 @@ class _Run:
             if b in ("isinstance", "type", "str", "repr", "bool", "id", "callable", "print", "hasattr", "getattr", "enumerate", "zip", "range", "super", "iter", "object", "format"):
                 if b == "type" and argv:
                     return CLASSV if a0.kind == "I" else T
+                if b in ("str", "repr", "format") and a0.kind == "I" and not a0.own and a0.types & {"int"} and not isinstance(e.args[0], ast.Call):
+                    self.hz(e, {"ValueError"}, f"`{short(e, 40)}`: decimal conversion of an int from the input exceeds the interpreter's digit limit for huge values (Python >= 3.11)")
                 return T if b != "enumerate" else a0
             if b == "hash":
                 if a0.maybe_unhashable or (a0.kind == "I" and a0.own and not a0.hk):
